@@ -349,6 +349,7 @@ impl Node {
         for p in ["commands-list ", "conflitcts-list "] {
             if let Some(rest) = l.strip_prefix(p) {
                 let body = rest.trim_end_matches('\n');
+                if body.is_empty() { return l.to_string(); }       // an empty list has no leading comma to keep
                 let mut items: Vec<&str> = body.split(',').collect();
                 // leading empty item from the fold
                 let lead = if !items.is_empty() && items[0].is_empty() { items.remove(0); true } else { false };
